@@ -231,6 +231,11 @@ class Ref:
                 self.ext_after[r] = True
             self.revalidate()
             return None, info
+        if t == "setfilename":
+            o, r = ev[1], ev[2]
+            self.detach_under(o, ())
+            self.obj_res[o] = r
+            return Expect("ok", None), info
         if t == "enter":
             self.obj_depth[ev[1]] += 1
             return None, info
@@ -326,10 +331,10 @@ class Ref:
 
 
 class World:
-    def __init__(self, cfg):
+    def __init__(self, cfg, resources=None):
         self.cfg = cfg
         self.klass = env.cls(cfg.clsname)
-        self.resources = [env.resource_for(cfg.clsname, i) for i in cfg.initial]
+        self.resources = resources or [env.resource_for(cfg.clsname, i) for i in cfg.initial]
         self.objects = []
         self.obj_res = []
         self.handle_objs = []
@@ -387,7 +392,10 @@ class World:
                 res.ext_write(c)
             return None
         try:
-            if t == "enter":
+            if t == "setfilename":
+                self.objects[ev[1]].filename = self.resources[ev[2]].path
+                self.obj_res[ev[1]] = ev[2]
+            elif t == "enter":
                 self.objects[ev[1]].buffered.__enter__()
             elif t == "exit":
                 self.objects[ev[1]].buffered.__exit__(None, None, None)
@@ -501,7 +509,7 @@ def execute(cfg, history, oracles, hooks=None, keep_world=False):
                     why = check_result(exp, outcome)
                     if why:
                         v.append(("reject", "%r: %s" % (ev, why)))
-                elif ev[0] in ("exit", "exit_cls", "enter", "enter_cls", "setcap") and "ctxerr" in oracles:
+                elif ev[0] in ("exit", "exit_cls", "enter", "enter_cls", "setcap", "setfilename") and "ctxerr" in oracles:
                     if exp is not None and exp.mode == "exc":
                         why = _exc_name_matches(exp, outcome)
                         if why:
